@@ -136,7 +136,8 @@ class C15(Prop):
         "reverseComplement_twice", "generated_complement_involutive",
         "flushLeftInserts_spec", "markFragmentsOld_row_spec", "markFragmentsOld_rows", "generated_gap_missing_codes",
         "wuss2ct_accepts_iff", "wuss2ct_involution", "wuss2ct_pairs_matched", "wuss2ct_of_labels", "ct2wuss_nested_labels", "nested_roundtrip", "nested_roundtrip_total", "simple_nested_roundtrip_total", "removeBroken_nested", "repaired_then_compacted_balanced",
-        "wuss2ct_nopk_nested", "nopk_wuss_roundtrip", "nopk_repaired_then_compacted", "wuss_ct_wuss_ct",
+        "wuss2ct_nopk_nested", "nopk_wuss_roundtrip", "nopk_repaired_then_compacted",
+        "compacted_pairs", "newPos_agrees", "nopk_columnSubset_pairs", "wuss2ct_of_class_labels", "wuss_ct_wuss_ct",
         "removeBroken_keeps_exactly", "removeBroken_rejects_unbalanced",
         "ct2wuss_shape", "wussFull_nopk", "wussReverse_involutive")]
     claimed = True
